@@ -18,7 +18,7 @@ verus! {
 VX_OPEN = 'pub mod vx {\nuse vstd::prelude::*;\n'
 VX_CLOSE = '}\nuse vx::*;\n'
 VP_OPEN = ('pub mod vp {\nuse vstd::prelude::*;\n')
-VP_CLOSE = '}\nuse vp::*;\nbroadcast use {vx::vx_axioms, vp::field_ops, vp::group_ops, vp::ax_np2, vp::sum_postcondition};\n'
+VP_CLOSE = '}\nuse vp::*;\nbroadcast use {vx::vx_axioms, vp::field_ops, vp::group_ops, vp::ax_np2, vp::sum_postcondition, vp::ax_vx_same};\n'
 FOOTER = '\n} // verus!\nfn main() {}\n'
 
 
